@@ -62,7 +62,7 @@ CHECKS = {
     "C05": dict(
         engine="corr-trace",
         technique='Coq proof (clean decision of a node with removable states implies every involved worker is done with all dependants and nobody runs it; removal requests contain only states marked f., selected, non-net; default pool filter never copies) + trace refinement; timing of removals against running/pending dependants is a monitor',
-        text=("Proved for all graphs/states: C05_unset_only_after_dependants (decision level), C05_only_if_asked, C05_default_filter_inert; for EVERY schedule (Proofs/TraverseDoor.v, C05_removals_only_marked_all_schedules): each removal request comes from the node's own worker, in the atomic section of that worker's positive clean decision on that node, and names only states of that node marked for removal (unset_mode f.), of a selected vm, not net states. Checked on the real code: every door request (unset/get) equals the model's; no state is removed while a dependant that could fetch it is running or pending; nothing is requested at all when no state is marked and the filter is reuse/block. PARTIAL: 'after every dependant finished' over whole traces is the monitor, the theorem is about the decision."),
+        text=("Proved for all graphs/states: C05_unset_only_after_dependants (decision level), C05_only_if_asked, C05_default_filter_inert; for EVERY schedule (Proofs/TraverseDoor.v, C05_removals_only_marked_all_schedules): each removal request comes from the node's own worker, in the atomic section of that worker's positive clean decision on that node, and names only states of that node marked for removal (unset_mode f.), of a selected vm, not net states. For the pools themselves (Proofs/TraverseKeep.v, C05_unmarked_states_persist): for every graph, pool population, schedule and any number of workers a state that no node marks for removal and that is in a pool at some point of the run is in that pool at every later point. Checked on the real code: every door request (unset/get) equals the model's; no state is removed while a dependant that could fetch it is running or pending; nothing is requested at all when no state is marked and the filter is reuse/block. PARTIAL: 'after every dependant finished' over whole traces is the monitor, the theorem is about the decision."),
         note=TRAV_NOTE,
         design="§5 C05"),
     "C08": dict(
